@@ -371,14 +371,22 @@ fn c07(src: &str) -> R {
                 let content = &txt[1..txt.len() - 2];
                 let digits: String = content.chars().filter(|c| *c != ',').collect();
                 let valid = digits.len() % 2 == 0 && digits.chars().all(|c| c.is_ascii_hexdigit());
-                if let Some(v) = val(k) {
-                    if !valid {
-                        return Err(format!("token {i} {txt:?}: decoded although it is not hex digit pairs (value {v:?})"));
+                if !valid {
+                    // not hex digit pairs: the token is reported as invalid and carries, like any quoted literal,
+                    // its unquoted content when that differs from the text
+                    let want = content.replace("''", "'");
+                    match val(k) {
+                        Some(v) if v != want => return Err(format!("token {i} {txt:?}: decoded although it is not hex digit pairs (value {v:?})")),
+                        None if want != content => return Err(format!("token {i} {txt:?}: no payload although it contains an escape")),
+                        _ => {}
                     }
+                } else if let Some(v) = val(k) {
                     let want: String = (0..digits.len() / 2).map(|j| u8::from_str_radix(&digits[2 * j..2 * j + 2], 16).unwrap() as char).collect();
                     if v != want {
                         return Err(format!("token {i} {txt:?}: decoded {v:?} expected {want:?}"));
                     }
+                } else if !digits.is_empty() {
+                    return Err(format!("token {i} {txt:?}: hex digit pairs without a decoded payload"));
                 }
             }
             T::StringLiteral | T::BitTestingLiteral | T::DateLiteral | T::DateTimeLiteral | T::NameLiteral | T::TimeLiteral | T::HexStringLiteral
